@@ -34,7 +34,9 @@ META = {
 # ------------------------------------------------------------------ mini type language
 
 TYPES = ['int', ['var'], ['list', ['var']], ['opt', ['var']], ['dict', ['var']], ['tuple', ['var']], ['tuplelit', ['var']],
-         ['struct', ['var']], ['box', ['var']], ['annot', ['var']], ['pair', ['var']]]
+         ['struct', ['var']], ['box', ['var']], ['annot', ['var']], ['pair', ['var']],
+         # a generic dataclass below a container / Optional / condition, and through a re-parameterised alias (BoxL = Box[List[V]])
+         ['list', ['box', ['var']]], ['opt', ['box', ['var']]], ['dict', ['box', ['var']]], ['annot', ['box', ['var']]], ['boxl', ['var']]]
 CONCRETE = ['int', 'str', 'float']
 VARNAMES = ['T', 'U', 'V', 'W']
 _TV = {n: t.TypeVar(n) for n in VARNAMES}
@@ -115,6 +117,10 @@ def build_type(pane, ty):
         return box_class(pane)[a]
     if h == 'pair':
         return pair_class(pane)[a, int]        # a two-parameter generic dataclass, partially re-parameterised
+    if h == 'boxl':
+        if 'BL' not in _BOX:
+            _BOX['BL'] = grammar.pin(box_class(pane)[t.List[_TV['V']]])       # BoxL = Box[List[V]], still generic in V
+        return _BOX['BL'][a]                                                  # BoxL[a] is Box[List[a]]
     if h == 'annot':
         return t.Annotated[a, Positive]
     raise KeyError(h)
@@ -129,7 +135,8 @@ def type_struct(obj):
     if isinstance(obj, dict):
         return ('struct',) + tuple((k, type_struct(v)) for k, v in obj.items())
     if isinstance(obj, type) and '__pane_boundvars__' in obj.__dict__:
-        return ('box', obj.__dict__.get('__origin__').__name__) + tuple(type_struct(v) for v in obj.__dict__['__pane_boundvars__'].values())
+        # a subscripted generic dataclass is what its fields say it is (Box[List[int]] and BoxL[int], BoxL = Box[List[V]], are the same type)
+        return ('paneclass', obj.__name__) + tuple((f.name, type_struct(f.type)) for f in obj.__pane_info__.fields)
     origin = t.get_origin(obj)
     if origin is None:
         return ('leaf', getattr(obj, '__name__', repr(obj)))
@@ -165,6 +172,8 @@ def sample(ty, good=True):
         return {'item': inner}
     if h == 'pair':
         return {'first': inner, 'second': 1}
+    if h == 'boxl':
+        return {'item': [inner]}
     if h == 'annot':
         return inner
     raise KeyError(h)
@@ -172,7 +181,7 @@ def sample(ty, good=True):
 
 # ------------------------------------------------------------------ programs
 
-FIELD_ACTIONS = ['none', 'add_req', 'add_default', 'add_kw', 'kw_marker_add', 'redeclare_type', 'redeclare_default']
+FIELD_ACTIONS = ['none', 'add_req', 'add_default', 'add_kw', 'kw_marker_add', 'redeclare_type', 'redeclare_default', 'add_conv']
 OPTIONS = [None, ('in_format', ['tuple', 'struct']), ('rename', 'camel'), ('allow_extra', True), ('kw_only', True), ('frozen', False), ('custom', 'x3')]
 ROOT_KINDS = ['nongeneric', 'generic1', 'generic2']
 FORMS = ['plain', 'bind_all', 'forward', 'swap', 'partial_redeclare', 'generic_reorder', 'nested_arg']
@@ -356,6 +365,13 @@ def realise(pane, prog):
                 ns['__annotations__']['_'] = pane.KW_ONLY
                 ns['__annotations__'][newname] = int
                 ns[newname] = 1
+            elif act == 'add_conv':
+                # a field with its own converter whose ANNOTATION mentions the class's type variable: the annotation is still what
+                # the signature shows, so it has to be substituted like any other
+                cty = ['list', ['var', var]] if var else 'int'
+                m.fields.append({'name': newname, 'type': cty, 'has_default': True, 'default': None, 'kw_only': lvl_kw, 'conv': True})
+                ns['__annotations__'][newname] = build_type(pane, cty)
+                ns[newname] = pane.field(default=None, converter=_passthrough(pane))
             elif act in ('redeclare_type', 'redeclare_default'):
                 tgt = m.fields[0]
                 if act == 'redeclare_type':
@@ -383,6 +399,26 @@ def realise(pane, prog):
 
 
 _X3: t.Dict[str, t.Any] = {}
+
+
+def _passthrough(pane):
+    if 'p' not in _X3:
+        from pane.converters import Converter
+
+        class PassThrough(Converter):
+            def expected(self, plural=False):
+                return 'anything'
+
+            def try_convert(self, val):
+                return val
+
+            def collect_errors(self, val):
+                return None
+
+            def into_data(self, val):
+                return val
+        _X3['p'] = PassThrough()
+    return _X3['p']
 
 
 def _times3(pane):
@@ -524,7 +560,7 @@ def check_program(pane, res, idx, prog):
                 break
         for f in eff:
             w = sample(f['type'], False)
-            if w is None:
+            if w is None or f.get('conv'):      # (a field's own converter decides what it takes)
                 continue
             d = dict(good)
             d[in_names[f['name']]] = w
